@@ -438,6 +438,14 @@ impl Report {
                 None => unlisted.push((sig.clone(), *n, detail.clone())),
             }
         }
+        // triage aid: VERIF_DUMP_SIGNATURES=<file> gets every unlisted signature (not only the first 10)
+        if let Ok(dump) = std::env::var("VERIF_DUMP_SIGNATURES") {
+            let all: Vec<Value> = unlisted
+                .iter()
+                .map(|(s, n, d)| json!({"signature": s, "count": n, "detail": d}))
+                .collect();
+            let _ = std::fs::write(dump, serde_json::to_string_pretty(&all).unwrap_or_default());
+        }
         let failed_guards: Vec<String> = g
             .guards
             .iter()
@@ -484,7 +492,7 @@ impl Report {
                 "violation_signatures".into(),
                 json!(unlisted
                     .iter()
-                    .take(20)
+                    .take(200)
                     .map(|(s, n, _)| json!({"signature": s, "count": n}))
                     .collect::<Vec<_>>()),
             );
